@@ -65,7 +65,7 @@ BUILT.update({
     "C07": ("Lean 4 theorems: add/remove rejected => state unchanged for EVERY state and cause; replace/setters atomic on well-formed layouts (add cannot fail after the remove); continuation equivalence; + fault-injection correspondence (sha before/after, twin file; causes incl. dates that do not fit the on-disk field)",
             "Proof over the model; on the real code every rejection cause x reachable states x position of the failing element is exercised, with sha-256 before/after and a twin-file continuation.",
             NOTE, "DESIGN.md §6 container"),
-    "C09": (CONT + "corollaries compactB(image)=true, file length formula, add grows / remove shrinks by exactly the size (remove also on ANY table lying inside the file: remove_shrinks_any); + history correspondence with Lean's compactB on the real bytes",
+    "C09": (CONT + "corollaries compactB(image)=true, file length formula, add grows / remove shrinks by exactly the size (both also on ANY table lying inside the file, no layout assumed: remove_shrinks_any, add_grows_any); + history correspondence with Lean's compactB on the real bytes",
             "Proof over the model; Lean's decidable compactness predicate and the length deltas judge the real file after every call.",
             NOTE, "DESIGN.md §6 container"),
     "C10": (CONT + "corollaries disk = view after every step (also as an invariant of every call and history on ANY state, no layout assumed: history_nothing_pending_any), decTable(disk) = in-memory entries, openFile(disk) = same object; + three-observer correspondence after every call",
